@@ -14,6 +14,7 @@ import (
 	"github.com/drand/drand/v2/internal/chain"
 	"github.com/drand/drand/v2/internal/chain/boltdb"
 	"github.com/drand/drand/v2/internal/chain/memdb"
+	proto "github.com/drand/drand/v2/protobuf/drand"
 	"github.com/drand/drand/v2/zzverif/emit"
 )
 
@@ -70,7 +71,7 @@ type netNode struct {
 
 type netStep struct {
 	what  string
-	model []string      // gevents
+	model [][]string    // admissible orders of the gevents this step stands for
 	obs   map[int]Obs   // acting node (position) -> observation
 	ev    map[int]Event // what was done to it
 	time  int64
@@ -83,6 +84,7 @@ type netRun struct {
 	F        []int   // adversarial share indices of epoch 0
 	Fs       [][]int // adversarial share indices per epoch
 	thr      int
+	syncOn   bool // the peers answer sync requests (from the longest running chain)
 	pool     []wireMsg
 	poolStep []int // step during which pool[k] came into existence
 	steps    []netStep
@@ -166,7 +168,83 @@ func (n *netRun) collect(j int, o Obs) {
 }
 
 func (n *netRun) record(what string, model []string, obs map[int]Obs, ev map[int]Event) {
-	n.steps = append(n.steps, netStep{what: what, model: model, obs: obs, ev: ev, time: n.base().Now(), heads: n.heads()})
+	n.recordAlts(what, [][]string{model}, obs, ev)
+}
+
+func (n *netRun) recordAlts(what string, alts [][]string, obs map[int]Obs, ev map[int]Event) {
+	n.steps = append(n.steps, netStep{what: what, model: alts, obs: obs, ev: ev, time: n.base().Now(), heads: n.heads()})
+}
+
+// donor: the running node other than j that holds the longest chain (it answers j's sync requests).
+func (n *netRun) donor(j int) int {
+	best, bh := -1, uint64(0)
+	for k, nd := range n.nodes {
+		if k == j || !nd.r.ticking {
+			continue
+		}
+		if h := nd.w.Head(); best < 0 || h > bh {
+			best, bh = k, h
+		}
+	}
+	return best
+}
+
+// streamTerm: what the peers serve node j right now (None: nobody answers).
+func (n *netRun) streamTerm(j int) string {
+	if !n.syncOn {
+		return "None"
+	}
+	d := n.donor(j)
+	if d < 0 {
+		return "None"
+	}
+	var bs []string
+	for r := n.nodes[j].w.Head() + 1; r <= n.nodes[d].w.Head(); r++ {
+		b, err := n.nodes[d].w.Base.Get(context.Background(), r)
+		if err != nil {
+			break
+		}
+		bs = append(bs, beaconTerm(r, n.t.id(b.PreviousSig), n.t.id(b.Signature)))
+	}
+	return "(Some " + emit.List(bs) + ")"
+}
+
+// setSync switches the peers' answers to sync requests on or off for every node.
+func (n *netRun) setSync(on bool) {
+	n.syncOn = on
+	for j, nd := range n.nodes {
+		j, nd := j, nd
+		nd.w.Client.mu.Lock()
+		if on {
+			nd.w.Client.syncAnswer = func(peer string, from uint64) ([]*proto.BeaconPacket, bool) {
+				d := n.donor(j)
+				if d < 0 {
+					return nil, false
+				}
+				var out []*proto.BeaconPacket
+				for r := from; r <= n.nodes[d].w.Head(); r++ {
+					b, err := n.nodes[d].w.Base.Get(context.Background(), r)
+					if err != nil {
+						break
+					}
+					out = append(out, &proto.BeaconPacket{Round: b.Round, PreviousSignature: b.PreviousSig, Signature: b.Signature, Metadata: &proto.Metadata{BeaconID: "default"}})
+				}
+				return out, true
+			}
+			nd.r.syncGoal = func() uint64 {
+				g := nd.w.CurrentRound()
+				if d := n.donor(j); d >= 0 && n.nodes[d].w.Head() < g {
+					g = n.nodes[d].w.Head()
+				}
+				return g
+			}
+		} else {
+			nd.w.Client.syncAnswer = nil
+			nd.r.syncGoal = nil
+		}
+		nd.w.Client.mu.Unlock()
+	}
+	n.record("syncmode", []string{}, map[int]Obs{}, map[int]Event{})
 }
 
 // clock advances real time: every honest clock moves by d; ticks and woken sleepers react.
@@ -176,8 +254,6 @@ func (n *netRun) clockStep(d int64) {
 	}
 	b := n.base()
 	old, nw := b.Now(), b.Now()+d
-	model := []string{fmt.Sprintf("GClock %d", d)}
-	obs, evs := map[int]Obs{}, map[int]Event{}
 	tick := int64(0)
 	if nw >= b.Genesis {
 		k := (nw - b.Genesis) / b.Period
@@ -185,17 +261,25 @@ func (n *netRun) clockStep(d int64) {
 			tick = k + 1
 		}
 	}
+	// real time passes for everybody at once; the nodes then react one after the other (they do not
+	// interact within the step: nothing is delivered in between)
+	n.recordAlts("clock", [][]string{{fmt.Sprintf("GClock %d", d)}}, map[int]Obs{}, map[int]Event{})
 	for j, nd := range n.nodes {
+		fire := fmt.Sprintf("GNode %d EFire", j)
+		alts := [][]string{{fire}}
+		if tick > 0 && nd.r.ticking {
+			st := n.streamTerm(j)
+			alts = [][]string{{fire, fmt.Sprintf("GNode %d (ETick %d %s)", j, tick, st)}}
+			if st != "None" {
+				// the sync manager and the aggregator of one node run concurrently
+				alts = append(alts, []string{fire, fmt.Sprintf("GNode %d (ETickSF %d %s)", j, tick, st)})
+			}
+		}
 		ev := Event{Kind: "adv", D: d}
 		o := nd.r.Do(ev)
-		obs[j], evs[j] = o, ev
 		n.collect(j, o)
-		model = append(model, fmt.Sprintf("GNode %d EFire", j))
-		if tick > 0 && nd.r.ticking {
-			model = append(model, fmt.Sprintf("GNode %d (ETick %d None)", j, tick))
-		}
+		n.recordAlts("react", alts, map[int]Obs{j: o}, map[int]Event{j: ev})
 	}
-	n.record("clock", model, obs, evs)
 }
 
 // advance splits a clock movement as the node engine does: a boundary is reached by a separate
@@ -247,10 +331,11 @@ func (n *netRun) stop(j int) {
 func (n *netRun) restart(j int) {
 	nd := n.nodes[j]
 	ev := Event{Kind: "restart"}
+	st := n.streamTerm(j)
 	o := nd.r.Do(ev)
 	nd.r.ticking = true
 	n.collect(j, o)
-	n.record("restart", []string{fmt.Sprintf("GNode %d (ERestart None)", j)}, map[int]Obs{j: o}, map[int]Event{j: ev})
+	n.record("restart", []string{fmt.Sprintf("GNode %d (ERestart %s)", j, st)}, map[int]Obs{j: o}, map[int]Event{j: ev})
 }
 
 func newNet(sch *crypto.Scheme, members, thr int, F []int, period int64, stores []string, desc string, maxRounds int) (*netRun, error) {
@@ -389,7 +474,9 @@ func genNet(n *netRun, rng *rand.Rand, steps int) {
 			if rng.Intn(3) > 0 {
 				n.deliver(j, m)
 			}
-		case x < 77:
+		case x < 74:
+			n.setSync(!n.syncOn)
+		case x < 79:
 			if n.nodes[j].r.ticking {
 				n.stop(j)
 				if rng.Intn(2) == 0 {
@@ -562,7 +649,11 @@ func (n *netRun) term() string {
 			}
 			obs = append(obs, fmt.Sprintf("(%d%%nat, (%s, %s, %s))", j, emit.Bool(o.Rejected), emit.List(puts), emit.List(emits)))
 		}
-		steps = append(steps, fmt.Sprintf("(%s, %s)", emit.List(s.model), emit.List(obs)))
+		var alts []string
+		for _, a := range s.model {
+			alts = append(alts, emit.List(a))
+		}
+		steps = append(steps, fmt.Sprintf("(%s, %s)", emit.List(alts), emit.List(obs)))
 	}
 	return fmt.Sprintf("mkNetC %s %d %d %d %d %s %s %s\n    %s\n    %s\n    %s\n    %s\n    %s\n    %s\n    %s",
 		emit.Bool(b.Chained()), b.Period, b.Genesis, b.Catchup, n.nodes[0].r.now0, emit.Z(0), emit.List(thrT), emit.List(fT),
